@@ -36,8 +36,8 @@ MANIFEST_ENTRY = {
         "codecs are proved under C07/C19. Flask routing, DB lookup, MP4 re-encoding not modelled."),
     "technique": "Lean 4 proof (slice of the global sequence + floor-division/leeway inequalities via linarith) + model/implementation correspondence",
 }
-PROP_FILES = ["DashLive/Props/C01.lean", "DashLive/Props/GenTie.lean", "DashLive/Props/GenTieTimeline.lean", "DashLive/Props/GenTieLiveIndex.lean"]
-LEAN_TARGETS = ["DashLive.Props.C01", "DashLive.Props.GenTie", "DashLive.Props.GenTieTimeline", "DashLive.Props.GenTieLiveIndex"]
+PROP_FILES = ["DashLive/Props/C01.lean", "DashLive/Props/GenTie.lean", "DashLive/Props/GenTieTimeline.lean", "DashLive/Props/GenTieLiveIndex.lean", "DashLive/Props/Generated.lean"]
+LEAN_TARGETS = ["DashLive.Props.C01", "DashLive.Props.GenTie", "DashLive.Props.GenTieTimeline", "DashLive.Props.GenTieLiveIndex", "DashLive.Props.Generated"]
 
 
 def _gen_options():
